@@ -44,6 +44,8 @@ var (
 		"pgregory.net/rapid.(*customGen[...]).maybeValue.func1": true,
 		"pgregory.net/rapid.runAction.func1":                    true,
 		"pgregory.net/rapid.checkOnce.func2":                    true,
+		"pgregory.net/rapid.(*T).cleanup.func1":                 true,
+		"pgregory.net/rapid.(*T).cleanup.func1.1":               true,
 	}
 )
 
@@ -658,6 +660,18 @@ func (t *T) cleanup() {
 		t.mu.Unlock()
 
 		if recurse {
+			if r := recover(); r != nil {
+				// A cleanup function panicked: the remaining ones still run, but a skip raised by one of
+				// them does not replace that panic.
+				defer func() {
+					if r2 := recover(); r2 != nil {
+						if _, skip := r2.(invalidData); !skip {
+							panic(r2)
+						}
+					}
+					panic(r)
+				}()
+			}
 			t.cleanup()
 		}
 	}()
